@@ -32,6 +32,7 @@ func (st *Struct) Caps() schema.Caps {
 	c := schema.FullCaps()
 	c.MapLists = true
 	c.Choices = st.useNode // struct-backed Reflect has no case detection
+	c.NoEnums = !st.useNode
 	return c
 }
 
